@@ -39,7 +39,18 @@ def checkC05 (trace : List (Rec × List Rec)) : Option String := Id.run do
   let mut d : ModAdapter.DSt := {}
   for (op, obs) in trace do
     if obs.any (·.name == "panic") then return some s!"panic during {op.name}"
-    let (d', mobs, _) := ModAdapter.stepRec d op
+    -- random dispel: the shuffle is the run's choice (taken from the observation), but it must have
+    -- removed exactly min(requested, candidates) of the candidates
+    let d0 := ModAdapter.withShuffle d op obs
+    if op.name == "dispel" && op.nat "order" == 3 then
+      let l := d.st.targets (op.int "t")
+      let ncand := (dispelCand d.cat l (op.nat "status")).length
+      let n : Nat := if op.int "count" ≤ 0 then l.length else (op.int "count").toNat
+      let ndis := (obs.filter fun r => r.name == "Dispelled" && r.int "t" == op.int "t").length
+      let hooks := obs.any (·.name == "hook")
+      if !hooks && ndis != min n ncand then
+        return some s!"dispel (random): {ndis} instance(s) dispelled, documented min(requested {n}, dispellable {ncand})"
+    let (d', mobs, _) := ModAdapter.stepRec d0 op
     if op.name != "cat" && op.name != "mutsnap" && op.name != "instprop" then
       let m := (mobs.filter relevant05).map listKey
       let o := (obs.filter relevant05).map listKey
